@@ -12,14 +12,14 @@ import vlib
 
 LEVEL_TEXT = ('partial. Lean 4 theorems about the deterministic wrappers around an uninterpreted sampler: Poisson shot noise is a '
               'non-negative integer; both shot-noise methods reject exactly the frames with a negative or an unrepresentably large count; '
-              'read noise is additive and signal-independent; a dark frame without pattern noise is floor(rate); a power-spectrum '
+              'the guard tests of shot_noise (the except-ValueError chain of the Poisson branch, the tests before the Gaussian draw: reduction np.min/np.max, comparison, literal bound 9.223372006484771e18) are REGENERATED (Gen/ShotDark.lean) and proved to refuse exactly the frames the model refuses (shot_guards_follow_source, shot_guard_bound_value), and the driver cross-checks them on every shot case; read noise is additive and signal-independent; the dark frame is the floor of the regenerated source expression rate*ones(shape)*fpn with the draw, or 1, as pattern (dark_follows_source; the test fpn_factor > 0 and the lognormal(mean=1.0, sigma=fpn_factor, size=shape) call are checked forms: any other shape is a refusal); a dark frame without pattern noise is floor(rate); a power-spectrum '
               'surface is zero outside its mask with mean square exactly rms^2 over its non-zero pixels for every mask shape; '
               'the accumulation of non-negative ray deposits is non-negative, bounded by the total deposited charge, zero where no ray deposits and zero everywhere without rays (cosmic_frame_support, cosmic_frame_bounded; tie to cosmic_rays sampled); the Rule-07 frame without pattern noise is the floor of the regenerated rate; power_spectrum grid/filter/noise shapes and per-axis frequency normalisation as the source builds them (regenerated PINS: theorems about generated text that the numeric model does not consume), its mask-and-normalise tail regenerated AND consumed by the model, the result being independent of any positive rescaling of the filtered noise (power_spectrum_invariant_under_noise_scale); every function with a parameter named seed (filter on the signature) builds its generator as default_rng(seed) with the bare parameter (or hands seed on unchanged: rule07 -> dark_current) '
               'and touches no global generator, cache or module global: read off the source on every run (effect table with generator argument and seed-forwarding call sites). '
               'Distribution moments and "different seeds differ" are sampled assumption checks, not proved.')
 LEVEL_NOTE = ('partial by nature: means/variances and seed sensitivity are properties of NumPy\'s generators (unproven clauses, sampled).')
 TECHNIQUE = 'Lean 4 proof (ordered-field algebra, Int.floor, decide on a regenerated effect table) + differential correspondence on identical draws'
-GEN = ['DetectorIdx', 'Effects', 'Extent', 'FieldDispatch', 'FieldIdx', 'FieldMerge', 'PowerSpectrum', 'Rule07', 'Units']     # every Gen module the model, lemmas, theorems and driver ops import (transitively)
+GEN = ['DetectorIdx', 'Effects', 'Extent', 'FieldDispatch', 'FieldIdx', 'FieldMerge', 'PowerSpectrum', 'Rule07', 'ShotDark', 'Units']     # every Gen module the model, lemmas, theorems and driver ops import (transitively)
 OPS = ['C18']
 RULE = ('cases: rule07_dark_current (fpn 0 / > 0, explicit seed, repeated), read noise on float/int/uint frames, power_spectrum with float/int/bool masks; shot noise (poisson/gaussian; frames 1..12 x 1..12, non-square, float and integer counts 0..1e6, frames with a negative or '
         'a > 9.22e18 entry), read noise, dark current (fpn 0 and > 0, scalar and array shapes), power_spectrum on elliptical/annular '
@@ -29,7 +29,8 @@ TRUSTED = ['np.random.Generator.poisson/normal/lognormal/standard_normal are pur
            'normal(loc, scale) = loc + scale * standard_normal() drawn in C order; Poisson draws are non-negative integers and '
            'poisson raises ValueError for lam < 0 or lam > 9.223372006484771e18',
            'np.fft and the PSD noise filter of power_spectrum are not modelled: its index bookkeeping and its final mask-and-normalise lines are '
-           'regenerated (Gen/PowerSpectrum.lean: psMaskStep, psNormalise) and consumed by the model; the Rule-07 rate is regenerated (Gen/Rule07.lean)']
+           'regenerated (Gen/PowerSpectrum.lean: psMaskStep, psNormalise) and consumed by the model; the Rule-07 rate is regenerated (Gen/Rule07.lean)',
+           'shot_noise: that NumPy refuses the Poisson draw (ValueError) exactly for lam < 0 or lam > 9.223372006484771e18 — only then does the regenerated except-chain run; the final `raise e` (any other ValueError, e.g. NaN counts) and the FloatingPointError handler of the Gaussian branch are not modelled and not exercised (NaN frames are not generated)']
 UNPROVEN = ['shot noise has mean and variance equal to the signal; read noise has zero mean and the requested standard deviation: '
             'distributional facts about NumPy generators, sampled with 6-sigma margins (assumption checks)',
             'different seeds give different draws: sampled',
